@@ -373,61 +373,75 @@ func runC04(c *Ctx) {
 	}
 
 	// ---- R04.5
-	if c.needWS("R04.5", "spawn", w.Spawn) && c.need("R04.5", "I_disp", r.IDisp != nil) {
-		var invs []ssa.Instruction
-		for _, g := range withAnon(w.Spawn) {
-			allInstrs(g, func(in ssa.Instruction) {
-				if ci, ok := in.(ssa.CallInstruction); ok && ci.Common().IsInvoke() && ci.Common().Value.Type() == types.Type(r.IDisp) {
-					invs = append(invs, in)
-				}
-			})
-		}
-		construct := fmt.Sprintf("%s: hand-over to the dispatcher", fname(w.Spawn))
+	{
+		invs := c.dispInvokes()
+		construct := "hand-over of a call to the dispatcher"
 		if len(invs) == 0 {
-			c.und("R04.5", construct, p.pos(w.Spawn.Pos()), "no invocation of the dispatcher found")
+			c.und("R04.5", construct, "-", "no invocation of the dispatcher found")
 		}
 		for _, in := range invs {
-			_, isGo := in.(*ssa.Go)
-			onOwn := isGo || in.Parent() != w.Spawn && c.spawnedAsGoroutine(in.Parent())
-			c.check(onOwn, "R04.5", construct, c.ipos(in), "on its own goroutine", "a call is dispatched synchronously on the single frame-executor goroutine: a handler that waits for a later frame (reverse call, cancel) deadlocks the connection, and frames queue behind a slow handler")
+			c.check(c.onOwnGoroutine(in), "R04.5", construct, c.ipos(in), "on its own goroutine", "a call is dispatched synchronously on the single frame-executor goroutine: a handler that waits for a later frame (reverse call, cancel) deadlocks the connection, and frames queue behind a slow handler")
 			c.check(!inLoop(in.Block()), "R04.5", construct+" (not repeated)", c.ipos(in), "outside any loop", "the dispatcher is invoked in a loop: a call can execute more than once")
 		}
-		// at most one invocation on any path
 		for _, in := range invs {
-			for _, other := range invs {
-				if in.Parent() == other.Parent() && reachFrom(in, func(x ssa.Instruction) bool { return x == other }, nil) != nil {
-					c.bad("R04.5", construct+" (not repeated)", c.ipos(other), "two dispatcher invocations lie on one path: the call executes twice")
+			isOther := func(x ssa.Instruction) bool {
+				for _, o := range invs {
+					if x == o {
+						return true
+					}
 				}
+				return false
+			}
+			if wv := reachFromUp(in, isOther, nil); wv != nil {
+				c.bad("R04.5", construct+" (not repeated)", c.ipos(wv), "two dispatcher invocations lie on one path: the call executes twice")
 			}
 		}
 	}
-	if r.FnExec != nil && w.FrameSwitch != nil {
-		sites := callsTo(r.FnExec, w.FrameSwitch)
+	if r.FnExec != nil {
+		fs := c.frameSwitchFn()
 		construct := fmt.Sprintf("%s: one dispatch per dequeued frame", fname(r.FnExec))
-		ok := len(sites) == 1
-		if ok {
-			// no second dispatch reachable without dequeuing again
+		if fs == nil || !p.inCone(r.FnExec, fs.Blocks[0].Instrs[0]) {
+			c.bad("R04.5", construct, p.pos(r.FnExec.Pos()), "the frame switch is not reached synchronously from the executor")
+		} else {
+			// call sites (in the executor's cone) that lead into the frame switch
+			var leads []ssa.Instruction
+			p.coneInstrs(r.FnExec, func(in ssa.Instruction) {
+				if g := p.syncCallee(in); g != nil && p.syncReachable(g, fs) && in.Parent() != fs {
+					leads = append(leads, in)
+				}
+			})
+			isLead := func(x ssa.Instruction) bool {
+				for _, l := range leads {
+					if x == l {
+						return true
+					}
+				}
+				return false
+			}
 			deq := func(x ssa.Instruction) bool {
 				sel, ok := x.(*ssa.Select)
 				if !ok {
 					return false
 				}
 				for _, st := range sel.States {
-					if isLoadOf(st.Chan, r.FQueue) {
+					if c.fieldVal(st.Chan, r.FQueue) {
 						return true
 					}
 				}
 				return false
 			}
-			if reachFrom(sites[0], func(x ssa.Instruction) bool { return x == ssa.Instruction(sites[0]) }, deq) != nil {
-				ok = false
+			ok := len(leads) > 0
+			for _, l := range leads {
+				// a second lead reachable without dequeuing again (nested leads in the same chain are one dispatch)
+				s2 := newIPSearch(func(x ssa.Instruction) bool { return isLead(x) && !p.inCone(p.syncCallee(l), x) }, deq)
+				s2.flat = true
+				s2.up = true
+				if s2.scan(l.Block(), instrIndex(l)+1, nil) {
+					ok = false
+				}
 			}
+			c.check(ok, "R04.5", construct, p.pos(fs.Pos()), "exactly one dispatch between two dequeues", "a dequeued frame can be dispatched more than once (or not exactly once per dequeue)")
 		}
-		pos := p.pos(r.FnExec.Pos())
-		if len(sites) > 0 {
-			pos = c.ipos(sites[0])
-		}
-		c.check(ok, "R04.5", construct, pos, "exactly one dispatch between two dequeues", "a dequeued frame can be dispatched more than once (or not exactly once per dequeue)")
 	}
 
 	// ---- R04.6
